@@ -136,6 +136,8 @@ def coq_term(case, r, coq_lx, coq_tens, relations, out_sxs):
             allsx += me[side]
     hs = relations(out_sxs(out) + allsx) if allsx else []
     bp = "(TZ %d)" % (1 if f["ep"] == 1 else 0)
+    if f.get("bp"):
+        bp = "(TZ %d)" % f["bp"][0] if f["bp"][1] == 1 else "(TQ %d %d)" % (f["bp"][0], f["bp"][1])
     return "chk_if %d %s %s %s %s %d %s %s %s %s" % (case["dim"], coq_str(mm), coq_str(mp), exs[0], exs[1], f["axis"], bp,
                                                     coq_list(hs), ix, coq_tens(out)), "value"
 
@@ -259,6 +261,14 @@ def gen_tree(rng, dim, spaces, tier, pairing):
 
 def gen_if_case(rng, tier, dim):
     m1, m2, ax, em, ep, pairing = gen_pair(rng, dim, tier)
+    nonunit = None
+    if dim == 2 and rng.random() < 0.14:
+        # logical patches that are not unit squares: the common face has a non-integer logical coordinate; analytical
+        # non-affine (polynomial) plus mapping, symbolic minus mapping
+        from props.C04if import user_poly_mapping
+        m1, m2 = sym("M1"), user_poly_mapping(rng, "F2", ax, kind_key="type")
+        em, ep, pairing = 1, -1, "symbolic|user-polynomial:nonunit"
+        nonunit = (list(rng.choice([(1, 2), (3, 2), (5, 4), (1, 1)])), list(rng.choice([(1, 2), (3, 2), (5, 4), (7, 4)])))
     vk = rng.choice(["h1", "hcurl", "hdiv", "l2", "undef"])
     spaces = {"u": {"kind": rng.choice(["h1", "h1", "undef"]), "vector": False},
               "v": {"kind": rng.choice(["h1", "undef"]), "vector": False},
@@ -284,6 +294,8 @@ def gen_if_case(rng, tier, dim):
             used.add(n["f"])
     spaces = {f: s for f, s in spaces.items() if f in used}
     iface = {"minus": m1, "plus": m2, "axis": ax, "em": em, "ep": ep}
+    if nonunit:
+        iface["bm"], iface["bp"] = nonunit
     if dim == 2 and "symbolic" in pairing and pairing != "same-symbolic" and rng.random() < 0.3:
         iface["ornt"] = -1            # the tangential coordinate of the plus face runs the other way
     return {"dim": dim, "iface": iface, "pairing": pairing,
@@ -303,7 +315,7 @@ def plus_class(case):
     m = f["plus"]
     if m["type"] == "symbolic":
         return "same-symbolic" if (f["minus"]["type"] == "symbolic" and f["minus"]["name"] == m["name"]) else "symbolic"
-    return "affine" if m["cls"] in ("AffineMapping", "IdentityMapping") else "nonaffine-analytical"
+    return "affine" if m.get("cls") in ("AffineMapping", "IdentityMapping") else "nonaffine-analytical"
 
 
 def feature(case):
@@ -316,6 +328,10 @@ def feature(case):
             n["k"] in ("sf", "vf", "comp") and n.get("s") == "+" and case["spaces"][n["f"]]["kind"] in ("l2", "hdiv", "hcurl")
             for n, _ in walk(t)):
         return "1d-analytical-plus-mapping"
+    if pc in ("nonaffine-analytical", "same-symbolic"):
+        for n, under in walk(t):
+            if n["k"] in ("sf", "vf", "comp") and n.get("s") == "+" and any(p["k"] == "d" for p in under):
+                return "dxi-of-plus-restricted"
     for n, under in walk(t):
         if n["k"] == "comp" and n.get("s") in "-+":
             return "component-of-restricted-vector"
@@ -325,10 +341,6 @@ def feature(case):
     for n, under in walk(t):
         if n["k"] == "op" and n["name"] == "div" and n["a"][0]["k"] == "vf" and case["spaces"][n["a"][0]["f"]]["kind"] != "hdiv":
             return "div-of-restricted-non-hdiv"
-    if pc in ("nonaffine-analytical", "same-symbolic"):
-        for n, under in walk(t):
-            if n["k"] in ("sf", "vf", "comp") and n.get("s") == "+" and any(p["k"] == "d" for p in under):
-                return "dxi-of-plus-restricted"
     if pc == "same-symbolic":
         # the Jacobian (not its inverse) of the plus copy: L2 / H(div) pull-backs, Piola factors of curl / div
         for n, under in walk(t):
@@ -485,6 +497,13 @@ def corpus_cases():
         MUL(OP("laplace", SF("w", "+")), SF("v", "-")), "laplace", "symbolic|symbolic")
     add(2, *S(), {"F": {"kind": "hcurl", "vector": True}, "v": {"kind": "h1", "vector": False}},
         MUL(CP("F", 0, "-"), SF("v", "+")), "comp*v", "symbolic|symbolic")
+    # logical patches that are not unit squares (face at x1 = 3/2 on both sides), polynomial plus mapping
+    F2 = {"type": "user", "name": "F2", "exprs": ["2*x1 + x2/3 + x1*x2/5 + x1**2/4", "3*x2 + x1/4 + x1*x2/3 + x1**2/6"]}
+    add(2, sym("M1"), F2, h1, OP("dot", OP("grad", SF("u", "+")), OP("grad", SF("v", "-"))), "grad.grad", "symbolic|user-polynomial:nonunit")
+    cs[-1]["iface"].update(bm=[3, 2], bp=[3, 2])
+    add(2, sym("M1"), F2, {"B": {"kind": "hdiv", "vector": True}, "p": {"kind": "l2", "vector": False}},
+        MUL(OP("div", VF("B", "+")), SF("p", "+")), "div(hdiv)", "symbolic|user-polynomial:nonunit")
+    cs[-1]["iface"].update(bm=[1, 2], bp=[5, 4])
     # 1-D patches with analytical mappings (the interface is a point)
     add(1, cat("AffineMapping", "F1", c1=(1, 1), a11=(2, 1)), cat("AffineMapping", "F2", c1=(3, 1), a11=(6, 1)), h1,
         OP("grad", SF("u", "+")), "grad", "affine|affine")
